@@ -66,6 +66,7 @@ type replayInput struct {
 }
 
 type pathResult struct {
+	retval     value
 	outcome    abort
 	forks      [][]dec
 	trace      []dec
